@@ -78,6 +78,7 @@ def main(a):
                     os.unlink(os.path.join(RUN, f))
                 except OSError:
                     pass
+        orch.clean_replays(PROP)
         thorough = a.tier == "thorough"
         t1 = time.time()
         if thorough:
